@@ -607,7 +607,7 @@ public:
         return theSubstring.assign(
                     *this,
                     thePosition,
-                    theCount == npos ? length() : theCount);
+                    theCount == npos ? length() - thePosition : theCount);
     }
 
     int
